@@ -1086,14 +1086,10 @@ func (R *Run) ruleWalkFilterAgree() {
 		R.check(nInc == 1 && !incReach, "walk-filter-agree", "hotline.CalcItemCount: count only visible entries", P.pos(cnt.Pos()), "the counter is only incremented for entries the predicate does not skip", "the item counter is incremented for entries whose name starts with the skip prefix (or not incremented exactly once)")
 		// result is count − 1 (the root itself)
 		minus1 := false
-		for _, ci := range callsIn(cnt) {
-			c := ci.Common()
-			if putUintWidth(calleeName(c)) == 2 {
-				v := stripConv(c.Args[len(c.Args)-1])
-				if b, ok := v.(*ssa.BinOp); ok && b.Op == token.SUB {
-					if k, ok := constInt(b.Y); ok && k == 1 {
-						minus1 = true
-					}
+		for _, pv := range findPutValues(cnt) {
+			if b, ok := stripConv(pv).(*ssa.BinOp); ok && b.Op == token.SUB {
+				if k, ok := constInt(b.Y); ok && k == 1 {
+					minus1 = true
 				}
 			}
 		}
